@@ -164,6 +164,13 @@ class Report:
             self.notes.append(s)
 
     # ---- finishing
+    @staticmethod
+    def _out(*a):
+        try:
+            print(*a)
+        except BrokenPipeError:
+            pass            # the reader went away (e.g. `| head`); the verdict is the exit status and the evidence file
+
     def finish(self, known, evdir, wall, checker_cmd, mod):
         os.makedirs(evdir, exist_ok=True)
         viol, kf = [], []
@@ -178,15 +185,15 @@ class Report:
         total = len(self.inst)
         good = sum(1 for e in self.inst.values() if e['ok'])
         # human-readable
-        print('== %s %s: %d obligations (%d discharged, %d known findings, %d violations); configs=%s; %d functions, %d call sites inspected'
+        self._out('== %s %s: %d obligations (%d discharged, %d known findings, %d violations); configs=%s; %d functions, %d call sites inspected'
               % (self.pid, self.tier, total, good, len(kf), len(viol), ','.join(self.configs), len(self.functions), self.call_sites))
         byrule = defaultdict(lambda: [0, 0])
         for (rule, key), e in self.inst.items():
             byrule[rule][0 if e['ok'] else 1] += 1
         for r, (a, b) in byrule.items():
-            print('   rule %-14s ok=%-4d bad=%-3d %s' % (r, a, b, self.rules_doc.get(r, '')[:110]))
+            self._out('   rule %-14s ok=%-4d bad=%-3d %s' % (r, a, b, self.rules_doc.get(r, '')[:110]))
         for full, e, text in kf:
-            print('KNOWN-FINDING: property=%s %s %s -- %s' % (self.pid, full, e['where'], text))
+            self._out('KNOWN-FINDING: property=%s %s %s -- %s' % (self.pid, full, e['where'], text))
         replay = os.path.join(evdir, '%s.violations.txt' % self.pid)
         with open(replay, 'w') as f:
             for full, e in viol:
@@ -194,7 +201,7 @@ class Report:
             for full, e, text in kf:
                 f.write('# known finding: %s\t%s\t%s\n' % (full, e['where'], text))
         for full, e in viol:
-            print('  violation %s at %s: %s' % (full, e['where'], e['detail']))
+            self._out('  violation %s at %s: %s' % (full, e['where'], e['detail']))
         samples = []
         for (rule, key), e in list(self.inst.items()):
             if len(samples) >= 12:
@@ -236,6 +243,6 @@ class Report:
         with open(os.path.join(evdir, '%s.json' % self.pid), 'w') as f:
             json.dump(ev, f, indent=1)
         if viol:
-            print('VIOLATION property=%s replay=%s' % (self.pid, replay))
+            self._out('VIOLATION property=%s replay=%s' % (self.pid, replay))
             return 1
         return 0
